@@ -37,3 +37,13 @@ package keeper
 //@   flag havoc=SetBalance,accountKeeper.SetAccount,AccountKeeper.SetAccount
 //@   ensures[C19.sa.balance] err == nil ==> defined(res_SetBalance_0)
 //@   before[C19.sa.balance]  SetBalance requires arg_addr == addr && arg_amount == account.Balance
+
+// C19 (gas used is at least the configured fraction of the gas limit): the gas reported as used - from which the fee and
+// the refund are computed - is the larger of (gas limit x minimum multiplier) and the gas consumed after the refund
+// counter was applied; nothing is taken off after the floor.
+//@ func (*Keeper).ApplyMessageWithConfig
+//@   flag noframe
+//@   flag pure=GetMinGasMultiplier,LegacyNewDec,Mul,TruncateInt,IsUint64,LegacyMaxDec,Uint64,NewLogsFromEth,Logs,Hex,Wrap,Wrapf,Rules,IsLondon,HasCustomPrecompiles,GetActivePrecompilesAddrs,GetEthIntrinsicGas,Contains,AccountRef,Address,GetRefund,Error,BlockHeight,WithValue,String
+//@   flag havoc=Precompiles,NewEVM,statedb.New,WithPrecompiles,ActivePrecompiles,Precompile,CaptureTxStart,CaptureTxEnd,PrepareAccessList,SetNonce,Create,Call,Commit
+//@   before[C19.amwc.floor] LegacyMaxDec requires arg0 == res_Mul_0
+//@   ensures[C19.amwc.floor] err == nil && r0 != nil ==> defined(res_Uint64_0) && r0.GasUsed == res_Uint64_0
